@@ -232,6 +232,15 @@ func probe() {
 	reqa([]string{"cert", "grpc", "tls", wire.EncList([]string{leaf + "|" + other, other})}, "", "-")
 	reqa([]string{"cert", "grpc", "tls", wire.EncList([]string{wire.Enc("nosan") + "|" + other})}, "", "-")
 	reqa([]string{"cert", "grpc", "other", wire.EncList([]string{leaf})}, "", "-")
+	// client certificates over a real TLS handshake: roots are scoped by trust domain
+	tlsc := func(issuer, uri string, ints ...string) []string {
+		return []string{"tlscert", "grpc", wire.EncList([]string{"td1=R1", "td2=R2"}), leafSpec{issuer: issuer, sans: []string{"U:" + uri, "D:foo.example.com"}, when: "ok", eku: "both"}.tok(),
+			wire.EncList(ints)}
+	}
+	reqa(tlsc("R1", "spiffe://td1/ns/a/sa/b"), "", "-")
+	reqa(tlsc("R2", "spiffe://td1/ns/a/sa/b"), "", "-") // td2's CA issuing a td1 identity: handshake refused
+	reqa(tlsc("I3", "spiffe://td1/ns/a/sa/b", "I3", "I1"), "", "-")
+	reqa(tlsc("R1", "spiffe://td3/ns/a/sa/b"), "", "-")
 	// 2. authenticated identity containing a comma
 	header("comma-identity")
 	emit("ca", "self", fmt.Sprint(farLife), "-", "1", "3600", "86400")
@@ -385,8 +394,43 @@ func probeAuthn() {
 		emit("authn", "cert", tr, "noauth", wire.EncList([]string{leaf}))
 		emit("authn", "cert", tr, "nopeer", wire.EncList([]string{leaf}))
 	}
+	// client certificate over a real TLS handshake + the real PeerCertVerifier
+	emit("case", "4", "authn", "tlscert")
+	pools := wire.EncList([]string{"td1=R1", "td2=R2"})
+	lf := func(issuer, when, eku string, sans ...string) string {
+		return leafSpec{issuer: issuer, sans: sans, when: when, eku: eku}.tok()
+	}
+	for _, tr := range []string{"grpc", "http"} {
+		emit("authn", "tlscert", tr, pools, lf("R1", "ok", "both", "U:spiffe://td1/ns/a/sa/b"), "-")
+		emit("authn", "tlscert", tr, pools, lf("R2", "ok", "both", "U:spiffe://td1/ns/a/sa/b"), "-") // foreign root
+		emit("authn", "tlscert", tr, pools, lf("R2", "ok", "both", "U:spiffe://td2/ns/a/sa/b"), "-")
+	}
+	emit("authn", "tlscert", "grpc", wire.EncList([]string{"td1=R1+R2"}), lf("R2", "ok", "both", "U:spiffe://td1/ns/a/sa/b"), "-")
+	emit("authn", "tlscert", "grpc", wire.EncList([]string{"td1=R1", "td1=R2"}), lf("R2", "ok", "both", "U:spiffe://td1/ns/a/sa/b"), "-")
+	emit("authn", "tlscert", "grpc", pools, lf("I1", "ok", "both", "U:spiffe://td1/ns/a/sa/b"), "I1")
+	emit("authn", "tlscert", "grpc", pools, lf("I1", "ok", "both", "U:spiffe://td1/ns/a/sa/b"), "-")
+	emit("authn", "tlscert", "grpc", pools, lf("I1", "ok", "both", "U:spiffe://td2/ns/a/sa/b"), "I1")
+	emit("authn", "tlscert", "grpc", pools, lf("I3", "ok", "both", "U:spiffe://td1/ns/a/sa/b"), "I3,I1")
+	emit("authn", "tlscert", "grpc", pools, lf("I3", "ok", "both", "U:spiffe://td1/ns/a/sa/b"), "I3")
+	emit("authn", "tlscert", "grpc", pools, lf("IE", "ok", "both", "U:spiffe://td1/ns/a/sa/b"), "IE")
+	emit("authn", "tlscert", "grpc", pools, lf("INC", "ok", "both", "U:spiffe://td1/ns/a/sa/b"), "INC")
+	emit("authn", "tlscert", "grpc", pools, lf("RX", "ok", "both", "U:spiffe://td1/ns/a/sa/b"), "-")
+	emit("authn", "tlscert", "grpc", pools, lf("R1", "expired", "both", "U:spiffe://td1/ns/a/sa/b"), "-")
+	emit("authn", "tlscert", "grpc", pools, lf("R1", "future", "both", "U:spiffe://td1/ns/a/sa/b"), "-")
+	emit("authn", "tlscert", "grpc", pools, lf("R1", "ok", "client", "U:spiffe://td1/ns/a/sa/b"), "-")
+	emit("authn", "tlscert", "grpc", pools, lf("R1", "ok", "server", "U:spiffe://td1/ns/a/sa/b"), "-")
+	emit("authn", "tlscert", "grpc", pools, lf("R1", "ok", "none", "U:spiffe://td1/ns/a/sa/b"), "-")
+	emit("authn", "tlscert", "grpc", pools, lf("R1", "ok", "both", "U:spiffe://td1/ns/a/sa/b", "D:foo.example.com", "I:0a000001"), "-")
+	emit("authn", "tlscert", "grpc", pools, lf("R1", "ok", "both", "D:foo.example.com", "U:spiffe://td1/ns/a/sa/b"), "-")
+	emit("authn", "tlscert", "grpc", pools, lf("R1", "ok", "both", "U:spiffe://td1/ns/a/sa/b", "U:spiffe://td2/ns/c/sa/d"), "-")
+	emit("authn", "tlscert", "grpc", pools, lf("R1", "ok", "both", "D:foo.example.com"), "-")
+	emit("authn", "tlscert", "grpc", pools, lf("R1", "ok", "both"), "-")
+	emit("authn", "tlscert", "grpc", pools, lf("R1", "ok", "both", "U:spiffe://td1/x"), "-")
+	emit("authn", "tlscert", "grpc", pools, lf("R1", "ok", "both", "U:spiffe://td3/ns/a/sa/b"), "-")
+	emit("authn", "tlscert", "grpc", pools, "nocert", "-")
+	emit("authn", "tlscert", "grpc", "-", lf("R1", "ok", "both", "U:spiffe://td1/ns/a/sa/b"), "-")
 	// kube JWT: cluster selection, token and audience binding, review outcomes, both transports
-	emit("case", "3", "authn", "kube")
+	emit("case", "5", "authn", "kube")
 	good := reviewSpec{authenticated: true, groups: []string{"system:serviceaccounts", "system:authenticated"},
 		username: "system:serviceaccount:istio-system:ztunnel", podName: "=zt", podUID: "=u1"}
 	kube := func(tr, aliases, remotes, hdr, form, tok, aud string, r reviewSpec) {
